@@ -34,6 +34,10 @@ TRUSTED_BASE = [
     "proved for all inputs over ℝ/ℂ: Impl = definition for q_lm, weighted q_lm, Q_lm, q_l, s_ij, count, w_l, ŵ_l, time/spatial correlation "
     "composition; equal weights ⇒ unweighted; 0 ≤ q_l ≤ 1 (triangle inequality + Unsöld, which is PROVED for the C08 Y_lm for l ≤ 12 and a hypothesis "
     "on the Y table beyond); |s_ij| ≤ 1 (Cauchy–Schwarz); count ≤ N_i; Y depends on the unit bond vector only (arccos/arg form = unit-vector form)",
+    "proved for l ≤ 12 (Props/C09Add.lean): the spherical-harmonic addition theorem for the model's Y_lm — a free polynomial identity in three "
+    "variables decided in the kernel on nested coefficient lists (`decide +kernel`, ≈ 1 min, no native_decide) — hence q_l² = mean of P_l over "
+    "the bond-bond cosines, and the exact rational q_l² of perfect fcc / hcp / bcc(8,14) / sc shells (within 1e-6 of the tabulated values) for every "
+    "rotated, bond-wise rescaled copy; the real boo_3d is run on crystals built from the theorem's shell vectors (driver op refshell)",
     "contracts (not proved): float64 ≈ ℝ (validated at 1e-7 under margin guards); np.arccos/np.arctan2/np.linalg.norm; scipy sph_harm_y = Y_lm for l = 11, 12 "
     "(exercised numerically against the Lean-evaluated Rodrigues Y_lm); sympy wigner_3j values = Racah formula (harness-side independent Racah sum passed to the model as data); "
     "read_neighbors: the parsed neighbour / weight tables (with Nmax truncation) are INPUT DATA of the model (C05); remove_pbc is the C02 model; "
